@@ -2,6 +2,7 @@ CONSTANTS
   FW = {1, 2, 3}
   Rec = {1, 2}
   Thread = {1}
+  Orig = {1, 2}
   Deviations = {"release_per_handle"}
 SPECIFICATION Spec
 VIEW View
